@@ -311,11 +311,7 @@ Theorem C05_every_execute_returns :
       Verif.ATP.System.sys_final g s ->
       forall i c, nth_error (Verif.ATP.Client.callers (Verif.ATP.System.cl s)) i = Some c ->
                   Verif.ATP.Client.caller_done c = true.
-Proof.
-  intros g calls Hn Hw sched s H F.
-  exact (Verif.Proofs.C05Live.sys_progress g calls Hn Hw s
-           (Verif.Proofs.C05Live.linv_run g calls Hn Hw sched _ s (Verif.Proofs.C05Live.linv_init g calls Hn Hw) H) F).
-Qed.
+Proof. exact Verif.Proofs.C05Live.sys_returns. Qed.
 Print Assumptions C05_every_execute_returns.
 
 (* (P3) REFINEMENT: for every number of calls, every input, every schedule of the composed system over
@@ -401,8 +397,8 @@ Print Assumptions C05_v1_concurrent_refuted.
    which no label is enabled (sys_quietb is a sound boolean check of sys_final) and the three results are
    what C05_refines says ---- *)
 Example C05_refines_nonvacuous :
-  exists s, Verif.ATP.System.sys_run Verif.Proofs.C05Examples.ex_g
-              (Verif.ATP.System.sys_init Verif.Proofs.C05Examples.ex_calls false) Verif.Proofs.C05Examples.ex_sched = Some s /\
+  (* ex_final := sys_run ex_g (sys_init ex_calls false) ex_sched  (Proofs/C05Examples.v) *)
+  exists s, Verif.Proofs.C05Examples.ex_final = Some s /\
             Verif.ATP.System.sys_final Verif.Proofs.C05Examples.ex_g s /\
             Verif.ATP.System.sys_result s 0%nat = Some (Verif.ATP.Client.ROk "success"%string 10) /\
             Verif.ATP.System.sys_result s 1%nat = Some (Verif.ATP.Client.ROk "other"%string 30) /\
